@@ -51,3 +51,6 @@
        (forall ((j Int)) (! (=> (and (<= d!off j) (< j (+ d!off p!len))) (= (select d!arr j) (select p!arr (+ p!off (- j d!off))))) :pattern ((select d!arr j))))
        (= (select d!arr (+ d!off p!len)) #x2f) (= (select d!arr (+ d!off p!len 1)) #x65) (= (select d!arr (+ d!off p!len 2)) #x76) (= (select d!arr (+ d!off p!len 3)) #x65)
        (= (select d!arr (+ d!off p!len 4)) #x6e) (= (select d!arr (+ d!off p!len 5)) #x74) (= (select d!arr (+ d!off p!len 6)) #x73) (= (select d!arr (+ d!off p!len 7)) #x2f)))
+; classification of errors of the TiKV client (opaque: decided by the client library)
+(declare-fun tikv_not_found (Iface) Bool)
+(declare-fun tikv_write_conflict (Iface) Bool)
